@@ -413,6 +413,33 @@ impl Prop for C17 {
                 }
             }
         }
+        // see-saw histories: the whole capacity of a channel moved back and forth several times
+        // (no single payment is out of range, the cumulative volume passes 2^64)
+        for (i, (c0, m0)) in [(i64::MAX as u64, 0u64), (0, i64::MAX as u64), (1u64 << 62, (1u64 << 62) - 1), (1000, 24)].iter().enumerate() {
+            use crate::world::{ChanPlan, PayPlan, Plan};
+            let cap = (*c0 as i128 + *m0 as i128).min(MAXB) as i64;
+            let mut pays = Vec::new();
+            let mut c = *c0 as i128;
+            for k in 0..6 {
+                // move everything to the merchant, then everything back, ...
+                let a: i64 = if k % 2 == 0 { c as i64 } else { -cap };
+                c -= a as i128;
+                pays.push(PayPlan { amount: a, cs_faults: vec![], lock_faults: vec![], pt_faults: vec![] });
+            }
+            let plan = Plan {
+                seed: mix(&[seed, 0xC17F, i as u64]),
+                merchants: vec!["9001".into()],
+                channels: vec![ChanPlan { merchant: 0, cust_bal: *c0, merch_bal: *m0, est_cs_faults: vec![], est_pt_faults: vec![], payments: pays, stop_at: 6, stop_stage: "ready".into() }],
+                order: vec![0],
+                wire: i % 2 == 1,
+                crash: "none".into(),
+                crash_steps: vec![],
+                entropy: vec![],
+            };
+            let mut cse = case_of(&plan, json!({}));
+            cse["f"] = json!("history");
+            v.push(cse);
+        }
         for i in 0..(if tier == Tier::Quick { 8 } else { 400 }) {
             v.push(json!({"f": "wire-amount", "seed": mix(&[seed, 0xC17C, i])}));
         }
